@@ -180,9 +180,9 @@ class EqGuard:
         return edges
 
 
-def result_ok_edges(view, rx):
-    """[(edges, call block, call term)]: for every call matching rx that returns a Result, the edges taken when it returned
-    Ok, however the caller tests it: `helper(..)?`, `match helper(..) { Ok(..) => .., Err(e) => return Err(e) }`,
+def result_edges(view, rx):
+    """[(ok edges, call block, call term, err edges)]: for every call matching rx that returns a Result, the edges taken
+    when it returned Ok / Err, however the caller tests it: `helper(..)?`, `match helper(..) { Ok(..) => .., Err(e) => return Err(e) }`,
     `if let Err(e) = helper(..) { return .. }`, `if helper(..).is_err() { return .. }`."""
     out = []
     seen = set()
@@ -193,7 +193,7 @@ def result_ok_edges(view, rx):
             for o in view.origins_of_operand(inner, at=view.at_term(bblock)):
                 if o.kind == "call" and rx.search(o.a) and o.b and o.b.startswith(view.path + ":bb"):
                     hb = int(o.b.rsplit(":bb", 1)[1])
-                    out.append((cont, hb, view.blocks[hb]["t"]))
+                    out.append((cont, hb, view.blocks[hb]["t"], brk))
                     seen.add((b, hb))
     for b, c, _ in switch_conds(view):
         if c.kind == "discr" and (c.enum or "").endswith("result::Result") and c.__dict__.get("variants"):
@@ -205,14 +205,20 @@ def result_ok_edges(view, rx):
                     inv = {n: val for val, n in c.variants.items()}
                     t = view.blocks[b]["t"]
                     okt = [tgt for val, tgt in t["targets"] if val == inv.get("Ok")] or [t["otherwise"]]
-                    out.append(([(b, x) for x in okt], hb, view.blocks[hb]["t"]))
+                    oke = [(b, x) for x in okt]
+                    out.append((oke, hb, view.blocks[hb]["t"], [e for e in view.edges_from(b) if e not in oke]))
         elif c.kind == "call" and re.search(r"^std::result::Result::(is_ok|is_err)$", c.callee) and c.term["args"]:
             for o in view.origins_of_operand(c.term["args"][0], at=view.at_term(c.block)):
                 if o.kind == "call" and rx.search(o.a) and not o.proj and o.b and o.b.startswith(view.path + ":bb"):
                     hb = int(o.b.rsplit(":bb", 1)[1])
                     te_, fe_ = cmp_true_false_edges(view, b, c)
-                    out.append((te_ if (c.callee.endswith("is_ok") != bool(c.neg)) else fe_, hb, view.blocks[hb]["t"]))
+                    okt_ = c.callee.endswith("is_ok") != bool(c.neg)
+                    out.append((te_ if okt_ else fe_, hb, view.blocks[hb]["t"], fe_ if okt_ else te_))
     return out
+
+
+def result_ok_edges(view, rx):
+    return [(ok, hb, t) for ok, hb, t, err in result_edges(view, rx)]
 
 
 class HelperGuard:
